@@ -761,6 +761,8 @@ class LittleEndianByteOrderer final {
     buffer_.template UncheckedWriteLittleEndianUInt<kBits>(value);
   }
 
+  // Two orderers/blocks are equal if they view the same storage.
+  bool operator==(const LittleEndianByteOrderer &other) const { return buffer_ == other.buffer_; }
  private:
   BufferType buffer_;
 };
@@ -832,6 +834,8 @@ class BigEndianByteOrderer final {
     buffer_.template UncheckedWriteBigEndianUInt<kBits>(value);
   }
 
+  // Two orderers/blocks are equal if they view the same storage.
+  bool operator==(const BigEndianByteOrderer &other) const { return buffer_ == other.buffer_; }
  private:
   BufferType buffer_;
 };
@@ -880,6 +884,8 @@ class NullByteOrderer final {
     buffer_.template UncheckedWriteBigEndianUInt<kBits>(value);
   }
 
+  // Two orderers/blocks are equal if they view the same storage.
+  bool operator==(const NullByteOrderer &other) const { return buffer_ == other.buffer_; }
  private:
   BufferType buffer_;
 };
@@ -908,6 +914,9 @@ class OffsetBitBlock final {
   using OffsetStorageType = OffsetBitBlock<UnderlyingBitBlockType>;
 
   OffsetBitBlock() : bit_block_(), offset_(0), size_(0), ok_(false) {}
+  // Like ContiguousBuffer, an OffsetBitBlock can be constructed from nullptr;
+  // array views use this for out-of-range elements and end() iterators.
+  explicit OffsetBitBlock(::std::nullptr_t) : OffsetBitBlock() {}
   explicit OffsetBitBlock(UnderlyingBitBlockType bit_block,
                           ::std::size_t offset, ::std::size_t size, bool ok)
       : bit_block_{bit_block},
@@ -961,6 +970,11 @@ class OffsetBitBlock final {
   ::std::size_t SizeInBits() const { return size_; }
   bool Ok() const { return ok_; }
 
+  // Two OffsetBitBlocks are equal if they view the same bits of the same block.
+  bool operator==(const OffsetBitBlock &other) const {
+    return bit_block_ == other.bit_block_ && offset_ == other.offset_ &&
+           size_ == other.size_ && ok_ == other.ok_;
+  }
  private:
   ValueType MaskInValue(ValueType original_value, ValueType new_value) const {
     ValueType original_mask = static_cast<ValueType>(~(
@@ -969,10 +983,10 @@ class OffsetBitBlock final {
                                   (new_value << offset_));
   }
 
-  const UnderlyingBitBlockType bit_block_;
-  const ::std::uint8_t offset_;
-  const ::std::uint8_t size_;
-  const ::std::uint8_t ok_;
+  UnderlyingBitBlockType bit_block_;
+  ::std::uint8_t offset_;
+  ::std::uint8_t size_;
+  ::std::uint8_t ok_;
 };
 
 // BitBlock is a view of a short, fixed-size sequence of bits somewhere in
@@ -1044,6 +1058,8 @@ class BitBlock final {
     return buffer_.Ok() && buffer_.SizeInBytes() * 8 == kBufferSizeInBits;
   }
 
+  // Two orderers/blocks are equal if they view the same storage.
+  bool operator==(const BitBlock &other) const { return buffer_ == other.buffer_; }
  private:
   BufferType buffer_;
 };
